@@ -107,15 +107,22 @@ func (t *Term) IsTrue() bool  { return t.Op == OpConst && t.Sort.K == SBool && t
 func (t *Term) IsFalse() bool { return t.Op == OpConst && t.Sort.K == SBool && t.Val == 0 }
 
 // TermStore hash-conses terms. One per worker (not thread safe).
+type TableInfo struct {
+	Vals []uint64
+	Idx  *Term
+}
+
 type TermStore struct {
-	tab   map[string]*Term
-	next  int
-	True  *Term
-	False *Term
+	tab    map[string]*Term
+	next   int
+	True   *Term
+	False  *Term
+	Tables map[int]TableInfo // term id -> the constant table it selects from
+	Ranges map[int][2]uint64 // variable id -> known unsigned [lo,hi] (from path assumptions made at creation)
 }
 
 func NewTermStore() *TermStore {
-	ts := &TermStore{tab: map[string]*Term{}}
+	ts := &TermStore{tab: map[string]*Term{}, Tables: map[int]TableInfo{}, Ranges: map[int][2]uint64{}}
 	ts.True = ts.mk(&Term{Op: OpConst, Sort: BoolSort, Val: 1})
 	ts.False = ts.mk(&Term{Op: OpConst, Sort: BoolSort, Val: 0})
 	return ts
@@ -151,6 +158,34 @@ func (ts *TermStore) mk(t *Term) *Term {
 	ts.next++
 	ts.tab[k] = t
 	return t
+}
+
+// lowZeros returns a lower bound on the number of low bits of t known to be zero.
+func lowZeros(t *Term) int {
+	switch t.Op {
+	case OpConst:
+		if t.Sort.W > 64 {
+			return 0
+		}
+		if t.Val == 0 {
+			return t.Sort.W
+		}
+		return bits.TrailingZeros64(t.Val)
+	case OpConcat:
+		lo := t.Args[1]
+		z := lowZeros(lo)
+		if z == lo.Sort.W {
+			return z + lowZeros(t.Args[0])
+		}
+		return z
+	case OpZext:
+		z := lowZeros(t.Args[0])
+		if z == t.Args[0].Sort.W {
+			return t.Sort.W
+		}
+		return z
+	}
+	return 0
 }
 
 func mask(w int) uint64 {
@@ -302,6 +337,39 @@ func (ts *TermStore) Eq(a, b *Term) *Term {
 		}
 		if b.IsFalse() {
 			return ts.Not(a)
+		}
+	}
+	if a.Sort.K == SBV && (a.IsConst() || b.IsConst()) {
+		x, c := a, b
+		if a.IsConst() {
+			x, c = b, a
+		}
+		if r, ok := ts.Ranges[x.ID]; ok && (c.Val < r[0] || c.Val > r[1]) {
+			return ts.False
+		}
+		if ti, ok := ts.Tables[x.ID]; ok {
+			// x = Vals[Idx]: x == c  <=>  Idx in {i | Vals[i] == c}
+			var parts []*Term
+			iw := ti.Idx.Sort.W
+			n := len(ti.Vals)
+			i := 0
+			for i < n {
+				if ti.Vals[i] != c.Val {
+					i++
+					continue
+				}
+				j := i
+				for j+1 < n && ti.Vals[j+1] == c.Val {
+					j++
+				}
+				if i == j {
+					parts = append(parts, ts.mk(&Term{Op: OpEq, Sort: BoolSort, Args: []*Term{ts.Const(iw, uint64(i)), ti.Idx}}))
+				} else {
+					parts = append(parts, ts.And(ts.Ule(ts.Const(iw, uint64(i)), ti.Idx), ts.Ule(ti.Idx, ts.Const(iw, uint64(j)))))
+				}
+				i = j + 1
+			}
+			return ts.Or(parts...)
 		}
 	}
 	if a.Sort.K == SBV {
@@ -518,39 +586,30 @@ func (ts *TermStore) bin(op Op, a, b *Term) *Term {
 		if a.IsConst() {
 			a, b = b, a
 		}
-		for pass := 0; pass < 2; pass++ {
-			x, y := a, b
-			if pass == 1 {
-				x, y = b, a
-			}
-			// x = [zext](concat(h, 0_k)), y = zext(inner) with |inner| <= k
-			xx := x
-			if xx.Op == OpZext {
-				xx = xx.Args[0]
-			}
-			if xx.Op == OpConcat && xx.Args[1].IsConst() && xx.Args[1].Val == 0 && xx.Args[1].Sort.W <= 64 {
-				k := xx.Args[1].Sort.W
-				var inner *Term
+		if a.Op == OpZext && b.Op == OpZext && a.Args[0].Sort == b.Args[0].Sort {
+			return ts.Zext(ts.bin(OpBvOr, a.Args[0], b.Args[0]), w)
+		}
+		if w <= 64 {
+			for pass := 0; pass < 2; pass++ {
+				x, y := a, b
+				if pass == 1 {
+					x, y = b, a
+				}
+				// x has k known-zero low bits and y fits in k bits: the OR is a concatenation
+				k := lowZeros(x)
+				if k <= 0 || k >= w {
+					continue
+				}
+				fits := false
 				if y.Op == OpZext && y.Args[0].Sort.W <= k {
-					inner = y.Args[0]
-				} else if y.IsConst() && y.Val&^mask(k) == 0 && k <= 64 {
-					inner = ts.Const(k, y.Val)
+					fits = true
+				} else if y.IsConst() && y.Val&^mask(k) == 0 {
+					fits = true
 				}
-				if inner != nil {
-					return ts.Zext(ts.Concat(xx.Args[0], ts.Zext(inner, k)), w)
+				if fits {
+					return ts.Concat(ts.Extract(x, w-1, k), ts.Extract(y, k-1, 0))
 				}
 			}
-		}
-		if b.IsConst() {
-			if b.Val == 0 {
-				return a
-			}
-			if b.Val == mask(w) && w <= 64 {
-				return b
-			}
-		}
-		if a == b {
-			return a
 		}
 	case OpBvXor:
 		if a.IsConst() {
@@ -638,6 +697,42 @@ func (ts *TermStore) cmp(op Op, a, b *Term) *Term {
 	}
 	if a == b {
 		return ts.Bool(op == OpBvUle || op == OpBvSle)
+	}
+	if op == OpBvUlt || op == OpBvUle {
+		if r, ok := ts.Ranges[a.ID]; ok && b.IsConst() {
+			if op == OpBvUlt {
+				if r[1] < b.Val {
+					return ts.True
+				}
+				if r[0] >= b.Val {
+					return ts.False
+				}
+			} else {
+				if r[1] <= b.Val {
+					return ts.True
+				}
+				if r[0] > b.Val {
+					return ts.False
+				}
+			}
+		}
+		if r, ok := ts.Ranges[b.ID]; ok && a.IsConst() {
+			if op == OpBvUlt {
+				if a.Val < r[0] {
+					return ts.True
+				}
+				if a.Val >= r[1] {
+					return ts.False
+				}
+			} else {
+				if a.Val <= r[0] {
+					return ts.True
+				}
+				if a.Val > r[1] {
+					return ts.False
+				}
+			}
+		}
 	}
 	// zext(x) cmp const: narrow
 	if w <= 64 {
